@@ -383,3 +383,36 @@ pub mod dummylike {
     }
 }
 pub use dummylike::DummyLike;
+#[allow(unused_imports)]
+pub mod sloppytoken {
+    //! A minimal token that keeps balances but does not check amounts (no sign check, no balance
+    //! check): contracts that accept arbitrary token addresses must make their own checks.
+    use soroban_sdk::{contract, contractimpl, contracttype, Address, Env};
+
+    #[contracttype]
+    pub enum SKey {
+        Bal(Address),
+    }
+
+    #[contract]
+    pub struct SloppyToken;
+
+    #[contractimpl]
+    impl SloppyToken {
+        pub fn balance(env: Env, id: Address) -> i128 {
+            env.storage().persistent().get(&SKey::Bal(id)).unwrap_or(0)
+        }
+        pub fn mint(env: Env, to: Address, amount: i128) {
+            let b: i128 = env.storage().persistent().get(&SKey::Bal(to.clone())).unwrap_or(0);
+            env.storage().persistent().set(&SKey::Bal(to), &(b + amount));
+        }
+        pub fn transfer(env: Env, from: Address, to: Address, amount: i128) {
+            from.require_auth();
+            let fb: i128 = env.storage().persistent().get(&SKey::Bal(from.clone())).unwrap_or(0);
+            env.storage().persistent().set(&SKey::Bal(from), &(fb - amount));
+            let tb: i128 = env.storage().persistent().get(&SKey::Bal(to.clone())).unwrap_or(0);
+            env.storage().persistent().set(&SKey::Bal(to), &(tb + amount));
+        }
+    }
+}
+pub use sloppytoken::{SloppyToken, SloppyTokenClient};
